@@ -104,8 +104,14 @@ class PipeAnalysis:
             tgt = sorted(t.origin) if isinstance(t, TV) else sorted(self.ops.atoms_of(t)) if t is not None else None
             self.ops.pev("expects_grad_check", node, target=tgt, strength=self.validators[info.qualname], validator=info.qualname)
             return None
-        if info.cls is not None and self.agg_cls in info.cls.mro and info.name == "__call__":
+        if info.cls is not None and self.agg_cls in info.cls.mro and info.name in ("__call__", "forward"):
             m = bound.get("matrix")
+            if m is None:
+                params = [a.arg for a in info.node.args.args if a.arg not in ("self", "cls")]
+                m = bound.get(params[0]) if params else None
+            if info.name == "forward":
+                # nn.Module semantics: only __call__ runs the registered hooks; a direct forward() is not `aggregator(J)`
+                self.ops.pev("aggregator_bypass", node, what="forward() called directly")
             lay = [l for l in (m.layout if isinstance(m, TV) else ()) if l[0] == 1]
             self.ops.pev("aggregator_call", node, matrix=repr(m), column_layout=repr(lay[0][1]) if lay else None)
             if I.join_depth == 0:
